@@ -416,8 +416,11 @@ package flags
 // subcommand of the current command that answers to that word.
 //@ pure func lookupOK(s *parseState) bool = longOK(s.lookup.longNames) && shortOK(s.lookup.shortNames) && forall(w, string, s.lookup.commands[w] != nil ==> subOf(s.lookup.commands[w], s.command) && answersTo(s.lookup.commands[w], w))
 
+// (C01: switching to a subcommand touches no option - in particular it does not
+// re-arm "the first occurrence empties the slice/map" in the middle of a parse;
+// the frames of fillLookup and makeLookup, which it relies on, count for C01 too.)
 //@ func (c *Command) fillParseState(s *parseState)
-//@   props C07 C08 C10 C04
+//@   props C07 C08 C10 C04 C01
 //@   traced
 //@   requires c != nil && s != nil && use(wf_cmd, c)
 //@   ensures[C03,C07,C08] s.command == c && s.lookup == c.makeLookup()
@@ -666,7 +669,7 @@ package flags
 //@ axiom manual wf_sub: forall c *Command, i int :: c != nil && 0 <= i && i < len(c.commands) ==> subOf(c.commands[i], c)
 
 //@ func (c *Command) fillLookup(ret *lookup, onlyOptions bool)
-//@   props C07 C08 C04
+//@   props C07 C08 C04 C01
 //@   requires c != nil && ret != nil && !isnil(ret.shortNames) && !isnil(ret.longNames) && !isnil(ret.commands)
 //@   loop 1 invariant !isnil(ret.shortNames) && !isnil(ret.longNames) && same(ret.commands, old(ret.commands))
 //@   loop 1 invariant longOK(old(ret.longNames)) ==> longOK(ret.longNames)
@@ -700,7 +703,7 @@ package flags
 // names, parents) do not change during a parse, so its result is a function
 // of the receiver.
 //@ func (c *Command) makeLookup() (r lookup)
-//@   props C07 C08 C04
+//@   props C07 C08 C04 C01
 //@   pure
 //@   requires c != nil && use(wf_cmd, c)
 //@   loop 1 invariant forall(i, 0, len(parents), parents[i] != nil)
